@@ -78,6 +78,17 @@ func init() {
 			return err == nil, fmt.Sprint(err)
 		})
 	}
+	probes["O84"] = func() (bool, string) {
+		return guard(func() (bool, string) {
+			type Base struct{ A int }
+			c, _ := ucfg.NewFrom(map[string]interface{}{"a": 1})
+			var to struct {
+				B *Base `config:",inline"`
+			}
+			err := c.Unpack(&to)
+			return err != nil || to.B == nil || to.B.A != 1, fmt.Sprint(err)
+		})
+	}
 	probes["O83"] = func() (bool, string) {
 		return guard(func() (bool, string) {
 			sub, _ := ucfg.NewFrom(map[string]interface{}{"k": 1})
